@@ -120,10 +120,12 @@ def locate_fn(anchors, file, line):
     return best
 
 
-def locate_clause(anchors, file, l0, l1):
+def locate_clause(anchors, file, l0, l1, exact=False):
     for c in anchors["clauses"]:
         if c["file"] == file and c["line_start"] <= l0 and l1 <= c["line_end"]:
             return c
+    if exact:
+        return None
     for c in anchors["clauses"]:
         if c["file"] == file and not (l1 < c["line_start"] or l0 > c["line_end"]):
             return c
@@ -160,10 +162,11 @@ def run(repo="/repo", modules=None, function=None, keep=None, rlimit=None, threa
                 "--multiple-errors", str(multiple_errors), "--num-threads", str(threads)]
         if rlimit:
             args += ["--rlimit", str(rlimit)]
-        for m in (modules or []):
-            args += ["--verify-module", m]
         if function:
-            args += ["--verify-function", function]
+            args += ["--verify-only-module", modules[0], "--verify-function", function]
+        else:
+            for m in (modules or []):
+                args += ["--verify-module", m]
         args += list(extra_args)
         cmd = verus_cmd(args)
         res.cmd = " ".join(cmd)
@@ -250,16 +253,16 @@ def parse(res, stdout, stderr, anchors):
                     fn, pfile, pline = f, s["file_name"], s["line_start"]
                     break
         clause = None
-        for s in spans:
-            if s["file_name"].startswith("src/") and not s.get("is_primary"):
-                c = locate_clause(anchors, s["file_name"], s["line_start"], s["line_end"])
-                if c is not None:
-                    clause = c
-                    break
+        labelled = [sp for sp in spans if sp["file_name"].startswith("src/") and (sp.get("label") or "").startswith("failed")]
+        for sp in labelled:
+            c = locate_clause(anchors, sp["file_name"], sp["line_start"], sp["line_end"], exact=True)
+            if c is not None:
+                clause = c
+                break
         if clause is None:
-            for s in spans:
-                if s["file_name"].startswith("src/"):
-                    c = locate_clause(anchors, s["file_name"], s["line_start"], s["line_end"])
+            for sp in prim:
+                if sp["file_name"].startswith("src/"):
+                    c = locate_clause(anchors, sp["file_name"], sp["line_start"], sp["line_end"], exact=True)
                     if c is not None:
                         clause = c
                         break
